@@ -433,6 +433,27 @@ func entryPointsAgree(rd world.Reader, probes []world.Probe) string {
 	return ""
 }
 
+// lookupAgreesWithSet compares the route an eager Lookup of rd selects with the reference matcher over set, for the
+// unambiguous answers only: a direct match must be found as such, and nothing may be found where neither the path nor
+// its slash-adjusted form matches (slash-adjusted candidates are C08's business).
+func lookupAgreesWithSet(rd world.Reader, probes []world.Probe, set *model.Set) string {
+	for _, p := range probes {
+		a := set.Match(p.Method, p.Host, p.Path, model.MatchOpts{})
+		b := set.Match(p.Method, p.Host, p.Path, model.MatchOpts{AllowLeadingSlashCapture: true})
+		if fmtMatch(a) != fmtMatch(b) {
+			continue
+		}
+		lk := world.ObsLookup(rd, p)
+		switch {
+		case a.Route != nil && !a.TSR && (lk.Tag != a.Route.Tag || lk.TSR):
+			return fmt.Sprintf("%s %s%s: Lookup selects %s, the routes of this view give %s", p.Method, p.Host, p.Path, lk, fmtMatch(a))
+		case a.Route == nil && lk.Tag != -1:
+			return fmt.Sprintf("%s %s%s: Lookup selects %s, no route of this view matches", p.Method, p.Host, p.Path, lk)
+		}
+	}
+	return ""
+}
+
 // paramsFit checks, without any model, that the parameters an eager lookup reports are those of the selected pattern:
 // one per wildcard, same names in order, and - substituted into the pattern - they spell the request (its path with
 // the final slash toggled when the answer is a trailing-slash one; hostnames compare without letter case).
